@@ -1062,3 +1062,82 @@ Proof.
     rewrite (raw_seq_preorder codes e) by assumption. reflexivity.
   - rewrite (entries_all_chain dbg e tbl _ _ _ c Hat Hf). rewrite body_evs_dies. reflexivity.
 Qed.
+
+(* ------------------------------------------------------------------ *)
+(** * The abbreviation table of a forest covers the forest *)
+
+Lemma aspec_eqb_eq a b : aspec_eqb a b = true <-> a = b.
+Proof.
+  unfold aspec_eqb. destruct a as [n1 f1 i1], b as [n2 f2 i2]. cbn [at_name at_form at_implicit].
+  split.
+  - intros H. apply andb_prop in H. destruct H as [H H3]. apply andb_prop in H. destruct H as [H1 H2].
+    apply N.eqb_eq in H1, H2. apply Z.eqb_eq in H3. subst. reflexivity.
+  - intros H. inversion H; subst. rewrite !N.eqb_refl, Z.eqb_refl. reflexivity.
+Qed.
+
+Lemma specs_eqb_eq : forall a b, specs_eqb a b = true <-> a = b.
+Proof.
+  induction a as [|x a IH]; intros [|y b]; cbn [specs_eqb]; split; try discriminate; try reflexivity.
+  - intros H. apply andb_prop in H. destruct H as [H1 H2]. apply aspec_eqb_eq in H1. apply IH in H2. subst. reflexivity.
+  - intros H. inversion H; subst. apply andb_true_intro. split; [apply aspec_eqb_eq|apply IH]; reflexivity.
+Qed.
+
+Lemma abbrev_eqb_eq a b : abbrev_eqb a b = true <-> a = b.
+Proof.
+  unfold abbrev_eqb. destruct a as [c1 t1 h1 s1], b as [c2 t2 h2 s2]. cbn [ab_code ab_tag ab_children ab_specs].
+  split.
+  - intros H. apply andb_prop in H. destruct H as [H H4]. apply andb_prop in H. destruct H as [H H3].
+    apply andb_prop in H. destruct H as [H1 H2]. apply N.eqb_eq in H1, H2. apply Bool.eqb_prop in H3.
+    apply specs_eqb_eq in H4. subst. reflexivity.
+  - intros H. inversion H; subst. rewrite !N.eqb_refl, Bool.eqb_reflx.
+    cbn [andb]. apply specs_eqb_eq. reflexivity.
+Qed.
+
+Lemma dedup_in : forall l x, In x (dedup l) <-> In x l.
+Proof.
+  induction l as [|a l IH]; intros x; [tauto|]. cbn [dedup In]. rewrite filter_In, IH.
+  split.
+  - intros [H|[H _]]; auto.
+  - intros [H|H]; [auto|]. destruct (abbrev_eqb a x) eqn:E.
+    + apply abbrev_eqb_eq in E. auto.
+    + right. split; [exact H|reflexivity].
+Qed.
+
+Lemma NoDup_map_filter {A B} (g : A -> B) (p : A -> bool) : forall l, NoDup (map g l) -> NoDup (map g (filter p l)).
+Proof.
+  induction l as [|a l IH]; intros H; [constructor|]. cbn [map] in H. inversion H as [|? ? Hn Hl]; subst.
+  cbn [filter]. destruct (p a); [|auto]. cbn [map]. constructor; [|auto].
+  intros Hin. apply Hn. apply in_map_iff in Hin. destruct Hin as (x & E & Hx). apply filter_In in Hx.
+  apply in_map_iff. exists x. tauto.
+Qed.
+
+Lemma dedup_codes_nodup : forall l,
+  (forall a b, In a l -> In b l -> ab_code a = ab_code b -> a = b) -> NoDup (codes_of (dedup l)).
+Proof.
+  induction l as [|a l IH]; intros Hinj; [constructor|]. cbn [dedup codes_of map]. constructor.
+  - intros Hin. apply in_map_iff in Hin. destruct Hin as (b & E & Hb). apply filter_In in Hb.
+    destruct Hb as [Hb Hne]. apply (proj1 (dedup_in _ _)) in Hb.
+    assert (a = b) by (apply Hinj; [left; reflexivity|right; exact Hb|symmetry; exact E]).
+    subst b. assert (abbrev_eqb a a = true) by (apply abbrev_eqb_eq; reflexivity).
+    rewrite H in Hne. discriminate.
+  - apply NoDup_map_filter. apply IH. intros x y Hx Hy. apply Hinj; right; assumption.
+Qed.
+
+Lemma forest_table dbg codes e f tail rest :
+  forest_ok codes e f -> codes_injective codes f ->
+  (tail = [] /\ rest = [] \/ tail = x00 :: rest) ->
+  exists tbl, parse_abbrevs dbg (enc_decls (forest_abbrevs codes f) ++ tail) = Ok (tbl, rest) /\
+              all_covered tbl codes f.
+Proof.
+  intros Hok Hinj Htail. unfold forest_abbrevs.
+  set (l := map (t_abbrev codes) (forest_nodes f)).
+  destruct (abbrev_get_full dbg (dedup l) tail rest) as (tbl & Hp & _ & Hget & _).
+  - apply Forall_forall. intros a Ha. apply (proj1 (dedup_in _ _)) in Ha. unfold l in Ha. apply in_map_iff in Ha.
+    destruct Ha as (t & <- & Ht). unfold forest_ok in Hok. rewrite Forall_forall in Hok.
+    apply (Hok t Ht).
+  - apply dedup_codes_nodup. intros a b Ha Hb. unfold l in Ha, Hb. apply in_map_iff in Ha, Hb.
+    destruct Ha as (t1 & <- & Ht1). destruct Hb as (t2 & <- & Ht2). apply Hinj; assumption.
+  - exact Htail.
+  - exists tbl. split; [exact Hp|]. unfold all_covered. apply Forall_forall. intros t Ht.
+    unfold covered. apply (Hget (t_abbrev codes t)). apply dedup_in. unfold l. apply in_map. exact Ht.
+Qed.
